@@ -1312,7 +1312,7 @@ func init() {
 	core.Register(&core.Check{
 		Spec: core.Spec{
 			Prop:        "C15",
-			Rule:        "Every handler of the notary, gossip and webhooks services (built through the hooks on one real node with real ledger, caches, challenge provider, juggler and stub peers) is called directly under recover(). Request shapes: for SignedHash requests (Reject, Saved, Balance, Waiting, TransactionsInDAG, GetVertex, Webhooks) the full product of address {empty, junk, valid, valid-checksum address of a 16/33 byte key, long} x data {nil, empty, 1, 31, 32, 33, 64, 1 MiB, own address, challenge / known hash} x hash {nil..64, the right digest} x signature {nil..64, the right signature}; for Transaction requests (Propose, Confirm, GossipTrx) and Vertex requests (GossipVrx) every field one at a time with the same shape classes (sub-messages nil/empty/valid), sampled pairs, stale and re-signed with the real key so that code behind the signature check is reached, combined with gossiper lists {nil, [empty], [valid], short/nil/long digest, short-key address, short signature, 300 entries}; ConnectionData (Announce, Discover) as a product. Client side: the missing-parent pull with peers answering GetVertex with shaped vertices, and the DAG sync against an in-memory (bufconn) peer streaming shaped vertices. Plus PRNG structural mutation of serialised valid requests (kept when proto.Unmarshal accepts them); this is not coverage guided. Verdicts: a recovered panic, or a worker crash (panic in a goroutine the handler started, attributed through the journal) is a violation; for a call that returned an error the digest of ledger snapshot (without the orphan buffer), awaiting listings of all known addresses and peer table must be unchanged. Non-trivial = every call; distinct by (service.rpc, shape, outcome). One batch calls the read endpoints from 16 goroutines at once with fresh, expired (one second challenge life), foreign and missing challenges (a crash there ends the worker and is attributed by the journal). Refused vertices that reference existing state are included: vertices carrying an awaiting transaction with something else wrong, and vertices under the hash of a vertex the node holds (genesis, tips; duplicate suppression cleared as after its 20 s window) naming an awaiting transaction. A state change that consists only of awaiting entries first observed at least 4.5 minutes earlier is the cache's own 5 minute expiry, not an effect of the request. Orphan flood: 470 correctly sealed vertices with unknown parents through GossipVrx, replays of the orphan buffer, more orphans, then a long alternation of replays and arrivals (every slot of the buffer filled, emptied and refilled many times). Empty ledger: every kind of correctly signed request on a node that has no genesis and has not loaded a DAG (a joining node that keeps serving). Expired entries: eight patterns of expired contracts among a wallet's five newest, then Waiting for both parties. Vertices refused after the ledger looked at their parents (children of overdrawing tips, second vertices for sealed transactions) must leave nothing behind but the dropped tip. Every read RPC after a truncation of a whole node (checkpointed and live transactions).",
+			Rule:        "Every handler of the notary, gossip and webhooks services (built through the hooks on one real node with real ledger, caches, challenge provider, juggler and stub peers) is called directly under recover(). Request shapes: for SignedHash requests (Reject, Saved, Balance, Waiting, TransactionsInDAG, GetVertex, Webhooks) the full product of address {empty, junk, valid, valid-checksum address of a 16/33 byte key, long} x data {nil, empty, 1, 31, 32, 33, 64, 1 MiB, own address, challenge / known hash} x hash {nil..64, the right digest} x signature {nil..64, the right signature}; for Transaction requests (Propose, Confirm, GossipTrx) and Vertex requests (GossipVrx) every field one at a time with the same shape classes (sub-messages nil/empty/valid), sampled pairs, stale and re-signed with the real key so that code behind the signature check is reached, combined with gossiper lists {nil, [empty], [valid], short/nil/long digest, short-key address, short signature, 300 entries}; ConnectionData (Announce, Discover) as a product. Client side: the missing-parent pull with peers answering GetVertex with shaped vertices, and the DAG sync against an in-memory (bufconn) peer streaming shaped vertices. Plus PRNG structural mutation of serialised valid requests (kept when proto.Unmarshal accepts them); this is not coverage guided. Verdicts: a recovered panic, or a worker crash (panic in a goroutine the handler started, attributed through the journal) is a violation; for a call that returned an error the digest of ledger snapshot (without the orphan buffer), awaiting listings of all known addresses and peer table must be unchanged. Non-trivial = every call; distinct by (service.rpc, shape, outcome). One batch calls the read endpoints from 16 goroutines at once with fresh, expired (one second challenge life), foreign and missing challenges (a crash there ends the worker and is attributed by the journal). Refused vertices that reference existing state are included: vertices carrying an awaiting transaction with something else wrong, and vertices under the hash of a vertex the node holds (genesis, tips; duplicate suppression cleared as after its 20 s window) naming an awaiting transaction. A state change that consists only of awaiting entries first observed at least 4.5 minutes earlier is the cache's own 5 minute expiry, not an effect of the request. Orphan flood: 470 correctly sealed vertices with unknown parents through GossipVrx, replays of the orphan buffer, more orphans, then a long alternation of replays and arrivals (every slot of the buffer filled, emptied and refilled many times). Empty ledger: every kind of correctly signed request on a node that has no genesis and has not loaded a DAG (a joining node that keeps serving). Expired entries: eight patterns of expired contracts among a wallet's five newest, then Waiting for both parties. Vertices refused after the ledger looked at their parents (children of overdrawing tips, second vertices for sealed transactions) must leave nothing behind but the dropped tip. Every read RPC after a truncation of a whole node (checkpointed and live transactions). Malicious sync peers keep streaming (up to three thousand vertices back to back) after a vertex the loader refuses.",
 			Assumptions: []string{"a request is never a nil message (gRPC never delivers one); repeated fields never hold nil elements (not producible by decoding)", "the orphan buffer is not part of 'the ledger': a vertex arriving before its parent is reported as an error and parked"},
 			MinEvals:    3000, MinNontriv: 500,
 		},
